@@ -84,7 +84,10 @@ def bijection_problems(a, b, keep: set, fwd=None, bwd=None, path=""):
         elif isinstance(x, str) and isinstance(y, str):
             ux, uy = UUID_ANY.findall(x), UUID_ANY.findall(y)
             if UUID_ANY.sub("#", x) != UUID_ANY.sub("#", y) or len(ux) != len(uy):
-                out.append(f"{p}: {x[:80]!r} / {y[:80]!r}")
+                # show the place where they part (long texts differ at the far end as often as not)
+                k = next((i for i, (c1, c2) in enumerate(zip(x, y)) if c1 != c2), min(len(x), len(y)))
+                lo = max(0, k - 40) if max(len(x), len(y)) > 80 else 0
+                out.append(f"{p}: {x[lo:lo + 80]!r} / {y[lo:lo + 80]!r}" + (f" (from character {lo}; lengths {len(x)} / {len(y)})" if lo else ""))
                 return
             for u, v in zip(ux, uy):
                 if u in keep or v in keep:
